@@ -28,6 +28,17 @@ check("C01", "exploration", "explore+gparse",
       "Trusted: the reference reader (Appendix A of DESIGN.md); streams needing more than the stated number of interacting odd tokens are outside the bound; documented-unsafe parser modes excluded; over-rejection is not a violation.",
       "DESIGN.md section 3, C01; Appendix A")
 
+check("C07", "exploration", "explore+gparse",
+      "bounded-exhaustive enumeration of all call sequences (programs) of length <=L over the wsgi.input API x bodies x framings x segmentations on the real RequestParser, compared call by call with io.BytesIO and with the pipelined next request",
+      "All programs of up to 2 (thorough 3) calls over 21 operations (read/readline/readlines/next with sizes None,-1,0,1,2,1023,1024,1025,5000), on 54 bodies (lengths around the 1024-byte refill and the 8192-byte discard block, several newline layouts), Content-Length and five chunked layouts, four segmentations; each call's return value must equal BytesIO's and the next request must be parsed from the first byte after the body whatever was consumed.",
+      "Trusted: io.BytesIO as reference semantics; programs longer than L calls and sizes outside the alphabet are outside the bound.",
+      "DESIGN.md section 3, C07")
+check("C12", "exploration", "explore+gparse",
+      "exhaustive grid of limit configurations x boundary sizes x field shapes x segmentations (monotone-threshold oracle) plus one metered endless stream per parser waiting state x configuration x read size (bounded-buffering oracle) on the real RequestParser",
+      "Every cell of the grid (7 request-line limits, 6 field-count limits, 4 field-size limits, sizes L-3..L+3, shapes plain/OWS/underscore/empty-value/trailer/after-PROXY, 3 segmentations, with and without following bytes) must show one monotone threshold inside [limit-2, limit] (field count exact) that does not depend on shape, segmentation or following bytes; every parser waiting state is fed an endless stream and must reject within the configured bound plus one read.",
+      "Trusted: the effective-limit clamping rules are taken from the documentation (0 = unlimited for line and field size); four unbounded chunk/trailer states are recorded known findings.",
+      "DESIGN.md section 3, C12")
+
 ALL = ["C%02d" % i for i in range(1, 21)]
 for pid in ALL:
     if pid not in CHECKS:
